@@ -59,7 +59,8 @@ def cases(draw, tier="quick"):
         if len(set(strings)) == len(strings):
             return {"strings": strings, "assign": [0] * len(ts) + [1], "nsamples": 2, "position": draw(st.sampled_from(["list", "dict"])),
                     "dup": False, "opts": opts}
-    return {"strings": strings, "assign": assign, "nsamples": nsamples, "position": position, "dup": dup, "opts": opts}
+    return {"strings": strings, "assign": assign, "nsamples": nsamples, "position": position, "dup": dup, "opts": opts,
+            "inner": draw(st.sampled_from([False, False, True]))}
 
 
 def grid_cases(tier):
@@ -88,6 +89,9 @@ def build_samples(case):
         samples = [{"f": list(b), "g": 1} for b in buckets]
     else:
         samples = [{"f": {"k%d" % i: s for i, s in enumerate(b)}, "g": 1} for b in buckets]
+    if case.get("inner"):
+        # the position sits in a non-root model and the nested layout is rendered (nested class bodies are re-indented)
+        samples = [{"o": s, "h": i} for i, s in enumerate(samples)]
     return samples
 
 
@@ -99,7 +103,7 @@ def valid(case):
             return False
         if not all(isinstance(a, int) and a >= 0 for a in case["assign"]) or not (1 <= case["nsamples"] <= 20):
             return False
-        if case["position"] not in ("scalar", "list", "dict"):
+        if case["position"] not in ("scalar", "list", "dict") or not isinstance(case.get("inner", False), bool):
             return False
         if any("\ud800" <= ch <= "\udfff" for s in case["strings"] for ch in s):
             return False
@@ -143,7 +147,7 @@ def check(case):
         opts["dkf"] = ["f"]
     observed = []
     for s in samples:
-        v = s.get("f")
+        v = (s["o"] if case.get("inner") else s).get("f")
         observed += [v] if isinstance(v, str) else list(v) if isinstance(v, list) else list(v.values()) if isinstance(v, dict) else []
     plain = [s for s in set(observed) if oracle.detect_ref(s, opts["sreg"]) is None]
     n = len(plain)
@@ -158,13 +162,29 @@ def check(case):
     ok, b = unowned(r, pl.build, samples, opts)
     if not ok:
         return r
+    inner = bool(case.get("inner"))
+    if inner:
+        opts["nested"] = pl.is_tree(b.reg)
+        r.label("inner-model" + (":nested-layout" if opts["nested"] else ""))
     ok, src = unowned(r, pl.render, b.reg, opts)
     if not ok:
         return r
-    v = codeview.load_view(r, b, opts, src, False, own=False)
+    v = codeview.load_view(r, b, opts, src, bool(opts["nested"]), own=False)
     if v is None:
+        if inner and r.skip and r.skip.startswith("load-problem:load:SyntaxError"):
+            # the annotation cannot even be evaluated: the property's own business when the strings sit in a nested class
+            r.skip = None
+            r.fail("annotation-does-not-evaluate", src)
         return r
     cls = v.cls_of[b.roots[0].type.index]
+    if inner:
+        from ..pipeline import dt
+        t = b.roots[0].type.type.get("o")
+        t = t.type if isinstance(t, dt.DOptional) else t
+        if not isinstance(t, dt.ModelPtr):
+            r.skip = "inner-object-not-a-model"
+            return r
+        cls = v.cls_of[t.type.index]
     hints = v.ld.hints[cls]
     comp, lit = expected_component(observed, opts["sreg"], fw, maxlit)
     if pos == "scalar":
